@@ -1,5 +1,6 @@
 import Solvor.Backend.StructLemmas
 import Solvor.Backend.PrLemmas
+import Solvor.Backend.DfsLemmas
 import Solvor.Gen.BackendConsts
 /-!
 Backend (C12): property theorems only.
@@ -20,7 +21,8 @@ open Solvor.Gen (Status)
 theorem reachB_decides {n : Nat} {es : List WEdge} (hv : validW n es = true) (s v : Nat) :
     reachB n es s v = true ↔ Reach es s v := reachB_iff hv
 
-example : reachB 4 [(0, 1, 1), (1, 2, 1), (3, 0, 1)] 0 2 = true ∧ reachB 4 [(0, 1, 1), (1, 2, 1), (3, 0, 1)] 0 3 = false := by
+example : validW 4 [(0, 1, 1), (1, 2, 1), (3, 0, 1)] = true ∧
+    reachB 4 [(0, 1, 1), (1, 2, 1), (3, 0, 1)] 0 2 = true ∧ reachB 4 [(0, 1, 1), (1, 2, 1), (3, 0, 1)] 0 3 = false := by
   decide
 
 /-! ### Single-source distances (`dijkstra_edges`, `bellman_ford` without target) -/
@@ -89,7 +91,11 @@ theorem obs_unique_fw {n : Nat} {es : List WEdge} {M1 M2 : List (List (Option In
   have := obs_unique_dist (checkFw_row h1 (i := i) (by omega)) (checkFw_row h2 (i := i) (by omega))
   simpa [List.getD_eq_getElem?_getD, hi1, hi2] using this
 
-/-- … and UNBOUNDED (a negative closed walk somewhere) excludes every accepted matrix -/
+example : checkFw 2 [(0, 1, 5), (1, 0, 1)] [[some 0, some 5], [some 1, some 0]] [[0, 1], [1, 0]] = true ∧
+    checkFw 2 [(0, 1, 5), (1, 0, 1)] [[some 0, some 5], [some 1, some 0]] [[3, 9], [4, 2]] = true := by decide
+
+/-- … and UNBOUNDED (a negative closed walk somewhere) excludes every accepted matrix
+(each hypothesis is satisfiable on its own: the examples above and below; together never) -/
 theorem obs_unique_fw_status {n : Nat} {es : List WEdge} {M : List (List (Option Int))} {L : List (List Nat)}
     {cyc : List Nat} (h1 : checkFw n es M L = true) (h2 : checkFwNeg n es cyc = true) : False := by
   unfold checkFwNeg at h2
@@ -374,6 +380,8 @@ theorem pagerank_contraction {n : Nat} {es : List (Nat × Nat)} {d : Rat} (hd : 
     (x y : List Rat) : l1dist n (prStep n es d x) (prStep n es d y) ≤ d * l1dist n x y :=
   l1dist_step_le hd hv x y
 
+example : (0 : Rat) ≤ 17 / 20 ∧ validU 3 [(0, 1), (1, 2), (2, 0), (0, 2), (0, 1)] = true := by decide +kernel
+
 /-- the PageRank vector (the fixed point accepted by `isPrFixed`) is unique for `0 ≤ d < 1` -/
 theorem obs_unique_pagerank {n : Nat} {es : List (Nat × Nat)} {d : Rat} (hd : 0 ≤ d) (hd1 : d < 1)
     (hv : validU n es = true) {x y : List Rat}
@@ -406,6 +414,9 @@ theorem pagerank_error_bound {n : Nat} {es : List (Nat × Nat)} {d : Rat} (hd : 
     mul_le_mul_of_nonneg_left h2 hd
   nlinarith
 
+example : isPrFixed 2 [(0, 1), (1, 0)] (1 / 2) [1 / 2, 1 / 2] = true ∧
+    prStep 2 [(0, 1), (1, 0)] (1 / 2) [1, 0] = [1 / 4, 3 / 4] := by decide +kernel
+
 /-- the stopping rule of both back-ends (largest change `≤ tol`) bounds every score's distance to the
 exact PageRank value: `(1 - d)·|y_v - x*_v| ≤ d·n·tol`; with `n·d ≤ 10` this is the bound
 `10·tol/(1-d)` the check uses -/
@@ -420,6 +431,9 @@ theorem pagerank_tol_bound {n : Nat} {es : List (Nat × Nat)} {d tol : Rat} (hd 
     mul_le_mul_of_nonneg_left h3 (by linarith)
   have h5 : d * l1dist n (prStep n es d x) x ≤ d * (n * tol) := mul_le_mul_of_nonneg_left h2 hd
   linarith
+
+example : ∀ v, v < 2 → absR ((prStep 2 [(0, 1), (1, 0)] (1 / 2) [1, 0]).getD v 0 - ([1, 0] : List Rat).getD v 0) ≤ 3 / 4 := by
+  decide +kernel
 
 /-! ### Adapters -/
 
@@ -469,6 +483,34 @@ theorem adapter_traversal_same_value {n : Nat} {es : List WEdge} (hv : validW n 
   rw [mem_sortNat, hmem, mem_reachSorted hv]
 
 example : sortNat (rustBfs 3 [(0, 2, 1), (0, 1, 1)] 0) = reachSorted 3 [(0, 2, 1), (0, 1, 1)] 0 := by decide
+
+/-- T-model: the mirrors of the Rust traversal kernels (`rust/src/algorithms/bfs.rs`, tied to the
+real kernel's `visited_order` by R_trace on every run) list every reachable node exactly once -/
+theorem rust_traversal_mirror_enumerates {n : Nat} {es : List WEdge} (hv : validW n es = true) {s : Nat}
+    (hs : s < n) :
+    ((rustBfs n es s).Nodup ∧ ∀ v, v ∈ rustBfs n es s ↔ Reach es s v) ∧
+    ((rustDfs n es s).Nodup ∧ ∀ v, v ∈ rustDfs n es s ↔ Reach es s v) :=
+  ⟨rustBfs_spec hv hs, rustDfs_spec hv hs⟩
+
+/-- hence the repaired adapters, applied to the kernel mirrors, return a value the verified
+checker accepts – the python back-end's value – on **every** valid input -/
+theorem adapter_traversal_mirror_accepted {n : Nat} {es : List WEdge} (hv : validW n es = true) {s : Nat}
+    (hs : s < n) :
+    checkReachList n es s (sortNat (rustBfs n es s)) = true ∧
+    checkReachList n es s (sortNat (rustDfs n es s)) = true := by
+  obtain ⟨⟨hb1, hb2⟩, ⟨hd1, hd2⟩⟩ := rust_traversal_mirror_enumerates hv hs
+  have reach_lt : ∀ v, Reach es s v → v < n := fun v ⟨_, hx⟩ => hx.lt_of_valid hv hs
+  unfold checkReachList
+  simp only [Bool.and_eq_true, beq_iff_eq, decide_eq_true_eq]
+  refine ⟨⟨⟨hv, hs⟩, ?_⟩, ⟨⟨hv, hs⟩, ?_⟩⟩
+  · exact adapter_traversal_same_value hv hb1 fun v => by
+      rw [hb2]; exact ⟨fun h => ⟨reach_lt v h, h⟩, fun h => h.2⟩
+  · exact adapter_traversal_same_value hv hd1 fun v => by
+      rw [hd2]; exact ⟨fun h => ⟨reach_lt v h, h⟩, fun h => h.2⟩
+
+example : validW 4 [(0, 2, 1), (2, 1, 1), (0, 1, 1), (3, 0, 1)] = true ∧
+    rustBfs 4 [(0, 2, 1), (2, 1, 1), (0, 1, 1), (3, 0, 1)] 0 = [0, 2, 1] ∧
+    rustDfs 4 [(0, 2, 1), (2, 1, 1), (0, 1, 1), (3, 0, 1)] 0 = [0, 2, 1] := by decide
 
 /-- … while the conversion on the unchanged tree (the raw visit order) is not that value -/
 theorem adapter_traversal_old_not_same :
